@@ -29,6 +29,7 @@ RULE = ('Hypothesis rule-based state machine (one variant per mode: record-array
         'other files untouched, object still bound to its file.  Non-trivial = history with >=1 successful append followed '
         'later by reread/write_copy and >=1 refused operation; distinct = distinct op-sequence hash.')
 RULE += '  Also: keywords struct/enum, zero-row append items, char[] starting files.'
+RULE += ' Round 5: write onto an existing zero-length file.'
 ASSUMPTIONS = [
     'appended pairs use keywords that are new (case-sensitively) and differ case-insensitively from every table name; not the word symbols, which append() documents as a key it skips',
     'strings/values as in C01 (texts the format cannot express are not generated); rows given as lists hold Python int/float/str',
